@@ -247,6 +247,7 @@ func dispatchConnection(conn net.Conn, sta *State) {
 		return
 	}
 
+	vhook("dispatch.gotUser")
 	sesh, existing, err := user.GetSession(ci.SessionId, seshConfig)
 	if err != nil {
 		user.CloseSession(ci.SessionId, "")
